@@ -26,6 +26,7 @@ MidiInNext(e, msg) ==
 
 Near(rgb, t) == \A i \in 1..3 : Abs(rgb[i] - t[i]) <= 2
 IsOther(l) == \E i \in 1..1 : l \in {"other:Logo", "other:Strip 1", "other:Light Bar", "other:Media"}
+                                       \cup {"other:RGB Strip " \o ToString(n) : n \in 1..18}
 
 PitchOfKey(c, s, k) == c.maps[s.map].keys[k].n + 12 * s.oct + s.semi
 BaseColour(colors, mapName, p) ==
